@@ -6,7 +6,7 @@ From Coq Require Import Reals Lra Lia List Bool ZArith NArith Permutation Psatz.
 From Sdfx Require Import Num.Ops Num.RInst Geo.Vec Geo.Box Geo.BoxR Geo.MinMaxR Geo.NormR Geo.Mat
   Sdf.Union2 Sdf.Shape Sdf.ShapeR Sdf.EncloseR Sdf.EncloseComb Sdf.EncloseXform Sdf.EncloseExtr
   Sdf.EncloseRev Sdf.EncloseRot Sdf.EncloseSlice Sdf.EncloseCone Sdf.EncloseRigid Sdf.EncloseBox
-  Sdf.EncloseAll Sdf.Poly Sdf.PolyR Sdf.PolyTreeR Sdf.Reify.
+  Sdf.EncloseAll Sdf.Poly Sdf.PolyR Sdf.PolyTreeR Sdf.Reify Sdf.Prim2X Sdf.Prim2XR.
 From Sdfx Require Sdf.Screw Sdf.ScrewR.
 Import ListNotations.
 Open Scope R_scope.
@@ -210,6 +210,11 @@ Qed.
 Definition mesh_top_nonneg (s : RShape2 ROps) : Prop :=
   match s with RMesh2 _ bb => 0 <= vy (b2max bb) | _ => False end.
 
+(* GearRackSDF2: the tooth is a polygon mesh whose box y range lies in the y range of the rack box; the rack
+   box is ordered and spans [-length, length] in x *)
+Definition rack_ok (s : RShape2 ROps) (length : R) (bb : RBox2) : Prop :=
+  match s with RMesh2 _ tb => rack_box_ok tb length bb | _ => False end.
+
 (* ------------------------------------------------------------ the two operand classes, syntactically *)
 Fixpoint rcl2_2 (s : RR2) : Prop :=
   match s with
@@ -276,6 +281,8 @@ Fixpoint rwf2 (s : RR2) : Prop :=
   | RRotateUnion2 mk s _ step => mk = MinDef /\ rwf2 s /\ affine33 step /\ @m33_determinant ROps step <> 0
   | RUnion2 mk l => mk = MinDef /\ allp rwf2 l
   | RSlice2 s _ n => rwf3 s /\ 0 < dot3 n n
+  | RPrim2 p => prim2_wf p
+  | RRack2 tooth _ length bb => rwf2 tooth /\ rack_ok tooth length bb
   end
 with rwf3 (s : RR3) : Prop :=
   match s with
@@ -306,9 +313,9 @@ Section Leaves.
   Fixpoint leaves2 (s : RR2) : Prop :=
     match s with
     | ROpaque2 id bb => enc2 (mkObj2 (env2 E id) bb)
-    | RMesh2 _ _ | RCircle _ | RBox2D _ _ | RLine2D _ _ => True
+    | RMesh2 _ _ | RCircle _ | RBox2D _ _ | RLine2D _ _ | RPrim2 _ => True
     | RCache2 s | ROffset2 s _ | RCut2 s _ _ | RTransform2 s _ | RScaleUniform2 s _ | RArray2 _ s _ _ _
-    | RRotateUnion2 _ s _ _ | RRotateCopy2 s _ | RElongate2 s _ => leaves2 s
+    | RRotateUnion2 _ s _ _ | RRotateCopy2 s _ | RElongate2 s _ | RRack2 s _ _ _ => leaves2 s
     | RIntersect2 _ s0 _ | RDifference2 _ s0 _ => leaves2 s0
     | RUnion2 _ l => allp leaves2 l
     | RSlice2 s _ _ => leaves3 s
@@ -389,7 +396,7 @@ Section Leaves.
   Lemma rmain2 (s : RR2) : Q2 s
   with rmain3 (s : RR3) : Q3 s.
   Proof.
-    - destruct s as [id bb|segs bb|s|r|size round|l round|s off|m s0 s1|m s0 s1|s a v|s m|s k|mk s nx ny step|mk s num step|s n|s h|mk l|s a n];
+    - destruct s as [id bb|segs bb|s|r|size round|l round|s off|m s0 s1|m s0 s1|s a v|s m|s k|mk s nx ny step|mk s num step|s n|s h|mk l|s a n|pr|s pitch len bb];
         intros o W LV H; cbn [rwf2 leaves2 interp2 rcinf2 rcl2_2] in *.
       + clear rmain2 rmain3. apply some_inj in H. subst o. apply enc_only2. exact LV.
       + clear rmain2 rmain3. apply enc_only2. eapply mesh2_enc; eassumption.
@@ -427,6 +434,11 @@ Section Leaves.
         clear rmain2 rmain3. eapply runion2_step; eassumption.
       + destruct W as (W & Hn). ob H. pose proof (rmain3 s o1 W LV Hb) as I. clear rmain2 rmain3.
         apply enc_only2. eapply slice2_enc; [exact Hn | exact H | apply I].
+      + clear rmain2 rmain3. apply enc_only2. eapply prim2_enc; eassumption.
+      + destruct W as (W & Hr). ob H. pose proof (rmain2 s o1 W LV Hb) as I. clear rmain2 rmain3.
+        apply enc_only2. eapply rack2_enc; [apply I | | exact H].
+        destruct s; cbn [rack_ok] in Hr; try contradiction. cbn [interp2] in Hb. unfold k_mesh2 in Hb.
+        destruct segs; [discriminate|]. apply some_inj in Hb. subst o1. exact Hr.
     - destruct s as [id bb|r|size round|h r round|h r0 r1 round|s theta|s h|s h tw|s h sc|s h tw sc|s h round|s0 s1 h round
                      |s m|s k|mk l|m s0 s1|m s0 s1|s a n|s h|mk s nx ny nz step|mk s num step|s n|s off|s th|s len tp pi st];
         intros o W LV H; cbn [rwf3 leaves3 interp3 rcinf3 rcl2_3] in *.
